@@ -227,7 +227,8 @@ impl World {
     }
 }
 
-fn claim_event(w: &mut World, gt: u64, init: &Value, reset: bool, sink: &mut Sink) {
+/// `alldone`: with this claim every claimant of the history has claimed (and nothing was deposited meanwhile)
+fn claim_event(w: &mut World, gt: u64, init: &Value, reset: bool, alldone: bool, sink: &mut Sink) {
     let pre = w.project();
     let snap = w.bank.data();
     let r = guarded(|| w.claim(gt));
@@ -243,7 +244,16 @@ fn claim_event(w: &mut World, gt: u64, init: &Value, reset: bool, sink: &mut Sin
         w.bank.set_data(&snap);
     }
     let post = w.project();
-    sink.emit(json!({"op": "claim", "reset": reset, "panic": panic, "gt": gt, "ok": ok, "err": err, "pre": pre, "post": post,
+    // failures produced by the bank's own bookkeeping (record_transferred_out / record_claimed)
+    let code = |e: gmsol_store::CoreError| format!("Custom({})", u32::from(e));
+    let errclass = if ok {
+        ""
+    } else if err == code(gmsol_store::CoreError::NotEnoughTokenAmount) || err == code(gmsol_store::CoreError::TokenAmountOverflow) {
+        "bank"
+    } else {
+        "other"
+    };
+    sink.emit(json!({"op": "claim", "errclass": errclass, "alldone": alldone, "reset": reset, "panic": panic, "gt": gt, "ok": ok, "err": err, "pre": pre, "post": post,
                      "paid": paid, "init": init, "closes": closes}));
 }
 
@@ -275,14 +285,14 @@ fn enumerate(args: &Args) -> i32 {
                                 }
                                 let parent = seen.get(&pre[..k - 1]).unwrap().clone();
                                 w.bank.set_data(&parent);
-                                claim_event(&mut w, gts[pre[k - 1]], &init, k == 1, &mut sink);
+                                claim_event(&mut w, gts[pre[k - 1]], &init, k == 1, k == 3, &mut sink);
                                 seen.insert(pre, w.bank.data());
                             }
                         }
                         // somebody else's larger exchange against the fresh bank
                         let root = seen.get(&vec![]).unwrap().clone();
                         w.bank.set_data(&root);
-                        claim_event(&mut w, g1 + g2 + g3 + 1, &init, true, &mut sink);
+                        claim_event(&mut w, g1 + g2 + g3 + 1, &init, true, false, &mut sink);
                     }
                 }
             }
@@ -314,11 +324,13 @@ fn random(args: &Args) -> i32 {
             gts.swap(i, rng.below(i as u64 + 1) as usize);
         }
         let mut first = true;
-        for g in gts {
+        let mut deposited = false;
+        let last = gts.len() - 1;
+        for (gi, g) in gts.into_iter().enumerate() {
             if rng.chance(1, 6) {
                 // an exchange that is larger than what remains (not part of the confirmed total)
                 let rem = w.project()["rem"].as_u64().unwrap();
-                claim_event(&mut w, rem + rng.below(3) + 1, &init, first, &mut sink);
+                claim_event(&mut w, rem + rng.below(3) + 1, &init, first, false, &mut sink);
                 first = false;
             }
             if rng.chance(1, 7) {
@@ -326,12 +338,13 @@ fn random(args: &Args) -> i32 {
                 let amount = rng.below(20);
                 let pre = w.project();
                 let ok = w.deposit(t, amount);
+                deposited = true;
                 let post = w.project();
                 sink.emit(json!({"op": "deposit", "reset": first, "panic": false, "t": t + 1, "amount": amount, "ok": ok,
                                  "pre": pre, "post": post}));
                 first = false;
             }
-            claim_event(&mut w, g, &init, first, &mut sink);
+            claim_event(&mut w, g, &init, first, gi == last && !deposited, &mut sink);
             first = false;
         }
     }
